@@ -143,6 +143,22 @@ PROPS['C11'] = dict(
 )
 
 
+PROPS['C08'] = dict(
+    engine='drvsim', level='exploration',
+    quick=dict(count=40000), thorough=dict(budget_s=420),
+    shrink_paths=[['suffixes'], ['ws_x'], ['ws_y']],
+    rule='scenario = explicit matrix model (1..8 columns of mixed continuous / binary / general-integer type incl. infinite bounds, 0..6 sparse rows of all five shapes incl. empty rows, '
+         'linear objective with optional coefficient vector and offset, Hessian in either declared format with general / diagonal-only / off-diagonal-only / duplicate / single-column '
+         'patterns, sparse primal and dual warm starts, int/real suffixes of all four kinds, names) x {text, binary} x comments. One run = the whole loop in one process: real NLModel/'
+         'NLSolver write the files to the simulated disk, mp reads them back into mp::Problem (bounds, types, class counts and block order by the reported permutation, rows, objective '
+         'as a function at 16 points, warm starts, suffixes, names), then the intercepted system() runs the real driver with the tag-answering solver stub and the real ReadSolution '
+         'returns x, y and suffixes, checked through the permutation. Non-trivial = every run; distinct = (LP/QP, format, permuted?, names, size, Hessian format, suffix count)',
+    assumptions=_DRV_ASSUME + ['objective reference = c0 + c.x + 0.5*sum over stored Hessian entries q*x_i*x_j for both declared formats (neither the written NL nor ComputeObjValue distinguishes the formats; recorded as an observation)',
+                               'duplicate column entries within one matrix row are not generated',
+                               'NLSolver::SetFileStub is always used (the auto-stub path with std::random_device / mkdtemp is not covered)'],
+)
+
+
 PROPS_IOSIM = {
     'C02': dict(
         engine='iosim', level='exploration',
